@@ -182,7 +182,7 @@ class C05(Prop):
             near, a, b, sa, sb, cands = sample(rng)
             sa = [s for s in sa if _valid_clause(s)]
             sb = [s for s in sb if _valid_clause(s)]
-            how = "list" if (rng.random() < 0.25 or any("," in s for s in sa)) else rng.choice(["str", "str", "and"])
+            how = rng.choice(["list", "list", "gen"]) if (rng.random() < 0.25 or any("," in s for s in sa)) else rng.choice(["str", "str", "and"])
             # a second clause list with the same members up to Specifier equality: permuted, duplicated, respelled variants
             sa2 = list(sa)
             for c in a:
@@ -219,6 +219,8 @@ class C05(Prop):
         def mk(clauses, how="str", ov=None):
             if how == "list":
                 return SpecifierSet([Specifier(c) for c in clauses], prereleases=ov)
+            if how == "gen":          # any iterable of Specifier objects: here a one-shot generator
+                return SpecifierSet((Specifier(c) for c in clauses), prereleases=ov)
             if any("," in c for c in clauses):
                 raise G.Domain("a clause containing a comma cannot be given inside a string")
             if how == "and":
@@ -290,6 +292,15 @@ class C05(Prop):
                     if got != both:
                         return False, (f"({a!r} & {b!r}).contains({c!r}, prereleases=True) = {got}; "
                                        f"a: {a.contains(c, prereleases=True)}, b: {b.contains(c, prereleases=True)}")
+                # `&` leaves its operands alone, also afterwards: the result is the caller's to change (its override is
+                # settable), and nothing of that may show in the operands
+                snap = [(str(x), x.prereleases, x._prereleases, len(x), [x.contains(c) for c in inp["cands"]]) for x in (a, b)]
+                for val in (True, False, None):
+                    r.prereleases = val
+                    now = [(str(x), x.prereleases, x._prereleases, len(x), [x.contains(c) for c in inp["cands"]]) for x in (a, b)]
+                    if now != snap:
+                        return False, (f"after `r = {a!r} & {b!r}` (overrides {oa}, {ob_}), setting r.prereleases = {val} changed an operand: "
+                                       f"{snap} -> {now}")
             return True, ""
 
         if law == "comm_assoc":
